@@ -268,20 +268,44 @@ class SignatureInfo:
     # resulting `Partial`.
     parameters = list(self.parameters.values())
     positional_values = []
+    # Positions in `positional_values` that hold a default (or NO_VALUE)
+    # because the parameter is unset.
+    unset_positions = []
     for index, param in enumerate(parameters):
       if param.kind == param.POSITIONAL_ONLY:
         if index in arguments:
           positional_values.append(arguments[index])
           del arguments[index]
-        elif include_no_value:
+        else:
+          unset_positions.append(len(positional_values))
           positional_values.append(self.get_default(index, NO_VALUE))
       if param.kind == param.POSITIONAL_OR_KEYWORD:
         if include_pos_or_kw_in_args or self.var_positional_start in arguments:
           if param.name in arguments:
             positional_values.append(arguments[param.name])
             del arguments[param.name]
-          elif include_no_value:
+          else:
+            unset_positions.append(len(positional_values))
             positional_values.append(self.get_default(index, NO_VALUE))
+    if not include_no_value:
+      # Unset parameters are not passed: trailing ones are dropped. An unset
+      # parameter that is followed by a positional argument has to be passed
+      # positionally to keep the later values bound to their own parameters,
+      # so its default is passed; without a default no valid call exists.
+      has_varargs = self.var_positional_start in arguments
+      while (
+          not has_varargs
+          and unset_positions
+          and unset_positions[-1] == len(positional_values) - 1
+      ):
+        positional_values.pop()
+        unset_positions.pop()
+      for position in unset_positions:
+        if positional_values[position] is NO_VALUE:
+          raise TypeError(
+              f'Missing value for positional parameter #{position}, which is '
+              'required because a later positional argument is set.'
+          )
     if self.var_positional_start is not None:
       index = self.var_positional_start
       while index in arguments:
